@@ -1192,7 +1192,7 @@ func (s *server) runRaw(h *hist) {
 				// connection for a closing request while this response was still (partly) in its write queue
 				c := h.closingAtOrAfter(i)
 				h.cut = i
-				h.fail(false, "c10-order", "class=close-with-backlog response to request %d broke off after %d of %d body bytes: the connection was closed for closing request %d while response bytes were still queued",
+				h.fail(false, "c10-order", "close-with-backlog: response to request %d broke off after %d of %d body bytes: the connection was closed for closing request %d while response bytes were still queued",
 					r.rid, len(body), r.sz, h.reqs[c].rid)
 			default:
 				h.fail(false, "c10-order", "response to request %d broke off: %v (%d of %d body bytes read)", r.rid, err, len(body), r.sz)
@@ -2048,8 +2048,6 @@ func runCase(e *lp.Exec, lines []string) {
 					}
 				}
 				e.P("> %s lost=%s", stripGot(line), strings.Join(append(lost, "-"), ","))
-			} else if h.kind == "raw" && h.cut >= 0 {
-				e.P("> %s cut=%d", stripGot(line), h.cut)
 			} else {
 				e.P("> %s", stripGot(line))
 			}
